@@ -328,7 +328,7 @@ pub fn check_parts(
     let mut any = false;
     if let Some(exs) = &parts.exact_value {
         any = true;
-        let b = if exs.contains('/') { 10 } else { ex.base };
+        let b = ex.base;
         let rs = numeral::read(exs, b);
         if rs.is_empty() {
             return Err(("numeral-unreadable".into(), format!("exact_value `{}`", exs)));
@@ -524,8 +524,7 @@ pub fn check(env: &Env, case: &Case, st: &mut Stats) -> CaseResult {
                 dims: &dims,
                 check_labels: true,
                 unmarked: false,
-                // fraction mode prints n/d (or a plain integer) in decimal whatever the base (as in C05)
-                base: if *base == 0 || mode_text == "frac" { 10 } else { *base as u32 },
+                base: if *base == 0 { 10 } else { *base as u32 },
             };
             st.class(&format!("fmt_mode_{}", if mode_text.is_empty() { "default" } else { mode_text.split(' ').next().unwrap_or("") }));
             match check_parts(env, &parts, &inline_none, &ex) {
